@@ -8,11 +8,15 @@ Ones == [kind |-> "ones", b |-> <<>>]
 Menu(n) == IF n = 1 THEN {[off |-> 0, size |-> s, al |-> a, bl |-> b, pat |-> Ones] : s \in {0, 6}, a \in {1, 4}, b \in {0, 1}}
            ELSE IF n = 2 THEN {[off |-> o, size |-> s, al |-> a, bl |-> 2, pat |-> None] : o \in {0, 1, 3}, s \in {0, 3}, a \in {1, 2}}
            ELSE {[off |-> o, size |-> s, al |-> 1, bl |-> b, pat |-> p] : o \in {0, 2, 4}, s \in {0, 2}, b \in {0, 1}, p \in {None, Ones}}
-MCNew == /\ act.a \in {"Init", "New"}
-         /\ \E m \in Menu(Len(forest) + 1) : New(m.off, m.size, m.al, DataOf(m.bl), m.pat)
-MCSetSize == \E n \in Ids(forest) : \E s \in {0, 5} : SetSize(n, s)
-MCNext == MCNew \/ DoAdd \/ DoAppend \/ MCSetSize \/ DoJoin \/ DoUpdateOffsets
-MCSpec == Init /\ [][MCNext]_vars
 Level == atoi(IOEnv.MC_LEVEL)
-Bounded == TLCGet("level") <= Level
+G == TLCGet("level") < Level                 \* depth bound inside the actions: no successors are generated beyond it
+MCNew == /\ G /\ act.a \in {"Init", "New"}
+         /\ \E m \in Menu(Len(forest) + 1) : New(m.off, m.size, m.al, DataOf(m.bl), m.pat)
+MCSetSize == G /\ \E n \in Ids(forest) : \E s \in {0, 5} : SetSize(n, s)
+MCAdd == G /\ DoAdd
+MCAppend == G /\ DoAppend
+MCJoin == G /\ DoJoin
+MCUpdateOffsets == G /\ DoUpdateOffsets
+MCNext == MCNew \/ MCAdd \/ MCAppend \/ MCSetSize \/ MCJoin \/ MCUpdateOffsets
+MCSpec == Init /\ [][MCNext]_vars
 =============================================================================
